@@ -61,8 +61,8 @@ Section PROGS.
           Do (CWrite target (jcontent v)) (fun rw =>
             Do (CClose target) (fun rc =>     (* the with-block closes the file also after a failed write *)
               match rw, rc with
-              | FErr e, _ => k (FErr e)
-              | FOk _, FErr e => k (FErr e)
+              | _, FErr e => k (FErr e)            (* a failing close wins over a failed flush (chained) *)
+              | FErr e, FOk _ => k (FErr e)
               | FOk _, FOk _ =>
                   if at_ then
                     Do (CRename target file) (fun rr =>
@@ -222,8 +222,8 @@ Section PROGS.
                 let after (rw : fres val) : prog A :=
                   Do (CClose d) (fun rc =>
                     match rw, rc with
-                    | FErr e, _ => k (FErr e)
-                    | FOk _, FErr e => k (FErr e)
+                    | _, FErr e => k (FErr e)
+                    | FErr e, FOk _ => k (FErr e)
                     | FOk _, FOk _ =>
                         Do (CMeta d) (fun m1 =>
                           match m1 with
